@@ -2,6 +2,7 @@
 import ctx
 import hir
 import pathsum
+import re
 from pathsum import ERR, NONE, OK, SOME, show_term
 
 RERUN_ON_CONFIGS = ("dfm", "std")
@@ -15,7 +16,8 @@ RULE_TEXT = ("The implementation is matched clause by clause against the abstrac
              "and the text table cover every variant, numbers agree with the SCPI-1999 table, -350/-113 texts as stated."
              " C09-D: on every witness interface with ErrorCommands each spelling of SYSTem:ERRor[:NEXT]? / :COUNt? reaches exactly system_error_next / system_error_count through the emitted trie and the generated dispatcher."
              " C09-K: the buffer discipline of process (rules K1-K7 of C07) - one response buffer per message, nothing left over at a back-edge."
-             " C09-C01M: Node::child returns the child whose key equals the mnemonic, independent of the order of the keys (rule C01-M).")
+             " C09-C01M: Node::child returns the child whose key equals the mnemonic, independent of the order of the keys (rule C01-M)."
+             " C09-C04X: execute only appends to the response (terminator after a successful query) and touches the writer in no other way (rule C04-X) - a written reply to an error query is never taken back.")
 
 Q = "<microscpi::error_queue::StaticErrorQueue<N> as microscpi::error_queue::ErrorQueue>::"
 DEQ = "heapless::deque::Deque::"
@@ -277,6 +279,11 @@ def run(ck):
     import c01
     with ck.under("C01-", "C09-C01"):
         c01.rule_M(ck, lib)
+    # the reply to an error query stays in the response once written: execute only appends (the terminator after a
+    # successful query) and touches the writer in no other way (rule C04-X)
+    import c04
+    with ck.under("C04-", "C09-C04"):
+        c04.rule_X(ck, lib)
 
 
 def queue_api_the_library_never_calls(lib):
@@ -287,7 +294,9 @@ def queue_api_the_library_never_calls(lib):
     cand = set()
     for m in lib.facts["mir"]:
         d = hir.base_path(m["def"].split("::{closure")[0])
-        if ("microscpi::error_queue::ErrorQueue" in d) and d.split("::")[-1] not in core3:
+        # further methods of the trait / its implementations, and impls of other traits for the queue type (a derived
+        # Clone or Debug): what matters is whether anything the library runs calls them
+        if ("microscpi::error_queue::ErrorQueue" in d or "microscpi::error_queue::StaticErrorQueue" in d) and d.split("::")[-1] not in core3:
             cand.add(d)
     if not cand:
         return cand
@@ -305,7 +314,11 @@ def queue_api_the_library_never_calls(lib):
 
     def matches(callee, fn):
         # a call through the trait (`ErrorQueue::clear_errors`) reaches every implementation of that method
-        return callee == fn or (callee.split("::")[-1] == fn.split("::")[-1] and "microscpi::error_queue::ErrorQueue" in callee)
+        if callee == fn or (callee.split("::")[-1] == fn.split("::")[-1] and "microscpi::error_queue::ErrorQueue" in callee):
+            return True
+        # a call through another trait (`Clone::clone(&queue)`) reaches the impl of that trait for the queue type
+        m_ = re.match(r"<(.*) as (.*)>::(\w+)$", fn)
+        return bool(m_) and callee.split("::")[-1] == m_.group(3) and hir.base_path(callee).startswith(hir.base_path(m_.group(2)))
 
     live = {d for d in outside_calls if d not in cand}
     while changed:
